@@ -99,7 +99,7 @@ def main(tier):
             '(b) clock_time_get/clock_res_get for ids 0..3 with the interposed host clock answering every non-decreasing 3-sequence of a 4-value menu, invalid ids, one run on the real clocks; '
             '(c) random_get lengths with a model of getentropy and with the real one; (d) proc_exit codes; one forked child per case; '
             'states = distinct (call, errno, details) observations; distinct_nontrivial = distinct (call, outcome class) pairs' % (5 if tier == 'quick' else 6))
-    return ex.finish(rule, {'cases_per_part': per_mode, 'max_depth_completed': 3, 'thread_spawn_part': 'not built here (hook thread_spawn_part)'},
+    return ex.finish(rule, {'cases_per_part': per_mode, 'max_depth_completed': ex.longest, 'thread_spawn_part': 'not built here (hook thread_spawn_part)'},
                      ['"every requested byte written" is decided by five calls on memory pre-filled with five different bytes: a position that keeps the pre-fill every time was not written',
                       'the model of getentropy follows POSIX/glibc: at most 256 bytes per call, EIO above'])
 
